@@ -192,10 +192,26 @@ func rulePlanClassify(c *Ctx, r *Rep) {
 func ruleGuardRoot(c *Ctx, r *Rep) {
 	pv := c.newProv()
 	n := 0
-	for _, fn := range c.Funcs {
-		if !strings.Contains(fn.Pkg.Pkg.Path(), "filesystem") {
-			continue
-		}
+	// the importer of a configuration and the helpers it calls, each seen in the importer's terms
+	var frames []frame
+	if root := c.configImporter(); root != nil {
+		pv.inFrames(root, 2, func(g *ssa.Function) bool { return g.Pkg != root.Pkg }, func(fr frame) {
+			ruleGuardRootIn(c, r, pv, fr, &n)
+		})
+		_ = frames
+	} else if c.Mod == modPath {
+		r.Undecided("anchor:config-importer", "", "no function imports a configuration on behalf of the directory walk")
+		return
+	}
+	if n < 2 && c.Mod == modPath {
+		r.Undecided("floor:root-subscriber-sites", "", sprintf("%d root/subscriber registration sites found, expected 2", n))
+	}
+}
+
+func ruleGuardRootIn(c *Ctx, r *Rep, pv *prov, fr frame, np *int) {
+	n := *np
+	defer func() { *np = n }()
+	for _, fn := range []*ssa.Function{fr.fn} {
 		a := &atomizer{c: c, pv: pv, fn: fn}
 		for _, b := range fn.Blocks {
 			for _, ins := range b.Instrs {
@@ -281,9 +297,6 @@ func ruleGuardRoot(c *Ctx, r *Rep) {
 				r.Check(okK && okV, "subscriber-of-issuer|"+c.FuncKey(fn), c.Pos(mu.Pos()), "subscribersOf[entity.Issuer] gains entity.Alias", strings.Join(ko, ",")+" <- "+strings.Join(vo, ","))
 			}
 		}
-	}
-	if n < 2 && c.Mod == modPath {
-		r.Undecided("floor:root-subscriber-sites", "", sprintf("%d root/subscriber registration sites found, expected 2", n))
 	}
 }
 
